@@ -648,7 +648,7 @@ def replay(case):
                 open(p, "w").write(HEADER_TMPL.format(file=e["name"]) + "\n" + CLEAN)
             else:
                 os.mkfifo(p)
-        env = dict(os.environ, PYTHONPATH="/repo", PYTHONDONTWRITEBYTECODE="1", GIT_CONFIG_GLOBAL="/dev/null",
+        env = dict(os.environ, PYTHONPATH=__import__("symx").REPO, PYTHONDONTWRITEBYTECODE="1", GIT_CONFIG_GLOBAL="/dev/null",
                    GIT_CONFIG_SYSTEM="/dev/null")
         opts = ["--no-colors"]
         if mode == "git":
